@@ -212,13 +212,15 @@ MASKR_OK = "mask_plain_ok"
 class Recorder:
     """Wraps, from outside, the seams of the search step for the duration of one BADS run."""
 
-    def __init__(self, widen_rng=None):
+    def __init__(self, widen_rng=None, nan_rng=None):
         self.es_calls = []        # dict(cls, mu, lamb, iters, gens=[(U_in, rows, z)], lb, ub, ret | exc)
         self.steps = []           # dict(set, z, evals=[u], target_calls, exc)
         self.cur_es = None
         self.cur_step = None
         self.widen_rng = widen_rng
         self.target_calls = 0
+        self.hard_lb = self.hard_ub = None
+        self.nan_rng = nan_rng    # when set: some acquisition values seen by the ES loop are replaced by NaN (from outside)
 
     def install(self):
         import pybads.search.es_search as es
@@ -245,9 +247,18 @@ class Recorder:
 
         def es_acq(xi, *a, **k):
             out = o_esacq(xi, *a, **k)
+            if R.nan_rng is not None and R.cur_es is not None and np.asarray(out[0]).size and R.nan_rng.random() < 0.5:
+                # an acquisition function that fails on some candidates: NaN for a random subset (sometimes for all)
+                zz = np.array(out[0], dtype=float).copy()
+                flat = zz.reshape(-1)
+                frac_nan = R.nan_rng.choice([0.2, 0.5, 0.9, 1.0])
+                for j in range(flat.shape[0]):
+                    if R.nan_rng.random() < frac_nan:
+                        flat[j] = np.nan
+                out = (zz,) + tuple(out[1:])
             if R.cur_es is not None and R.cur_es["gens"] and R.cur_es["gens"][-1][2] is None:
                 g = R.cur_es["gens"][-1]
-                if g[1].shape != np.asarray(xi).shape or not np.array_equal(g[1], xi):
+                if g[1].shape != np.asarray(xi).shape or not np.array_equal(g[1], xi, equal_nan=True):
                     R.cur_es["desync"] = True
                 g[2] = np.array(out[0], dtype=float).reshape(-1)
             return out
@@ -258,6 +269,10 @@ class Recorder:
             ost = a[5] if len(a) > 5 else k.get("optim_state")
             R.cur_es["lb_search"] = np.array(ost["lb_search"], dtype=float).reshape(-1)
             R.cur_es["ub_search"] = np.array(ost["ub_search"], dtype=float).reshape(-1)
+            # for the box recomputed by the monitor: the hard bounds of the BADS object (internal units, read at
+            # construction by run_bads) and the search mesh size of this call
+            R.cur_es["hard_lb"], R.cur_es["hard_ub"] = R.hard_lb, R.hard_ub
+            R.cur_es["search_mesh"] = float(ost["search_mesh_size"])
             try:
                 r = o_escall(self_, *a, **k)
                 if np.asarray(r[0]).size == 0:        # the empty search set (no candidate survived)
@@ -340,13 +355,14 @@ CONS = {
 
 
 def run_bads(cfg):
-    """One real BADS run under the recorder.  cfg: D, budget, seed, cons, n_search, iters, widen, noise."""
+    """One real BADS run under the recorder.  cfg: D, budget, seed, cons, n_search, iters, widen, noise, box, x0, nan_acq."""
     import logging
     import random
     import warnings
     from pybads import BADS
     D = cfg["D"]
-    rec = Recorder(widen_rng=random.Random(cfg["seed"] * 7919 + 11) if cfg.get("widen") else None)
+    rec = Recorder(widen_rng=random.Random(cfg["seed"] * 7919 + 11) if cfg.get("widen") else None,
+                   nan_rng=random.Random(cfg["seed"] * 104729 + 5) if cfg.get("nan_acq") else None)
     nrng = np.random.default_rng(cfg["seed"] + 5)
 
     def target(x):
@@ -365,15 +381,25 @@ def run_bads(cfg):
     if cfg.get("noise"):
         opts["uncertainty_handling"] = True
         opts["noise_final_samples"] = 0
-    lb, ub = -2.0 * np.ones(D), 2.0 * np.ones(D)
-    x0 = 1.5 * np.ones(D) if cfg.get("opt", 0) > 2 else 0.25 * np.ones(D) if cfg["cons"] == "lattice" else 0.3 * np.ones(D) + (0.0 if cfg["cons"] in ("band", "wband") else -0.55)
+    if cfg.get("box") == "odd":
+        # hard bounds that are NOT multiples of the search mesh in internal units (-1.337, 1.471): the mesh-rounded
+        # box [lb_search, ub_search] is strictly inside the hard box
+        lb, ub = -13.37 * np.ones(D), 14.71 * np.ones(D)
+        plb, pub = -5.0 * np.ones(D), 5.0 * np.ones(D)
+        x0 = float(cfg.get("x0", 4.0)) * np.ones(D)
+    else:
+        lb, ub = -2.0 * np.ones(D), 2.0 * np.ones(D)
+        plb, pub = lb / 2, ub / 2
+        x0 = 1.5 * np.ones(D) if cfg.get("opt", 0) > 2 else 0.25 * np.ones(D) if cfg["cons"] == "lattice" else 0.3 * np.ones(D) + (0.0 if cfg["cons"] in ("band", "wband") else -0.55)
     out = dict(cfg=cfg, crash=None)
     rec.install()
     logging.disable(logging.CRITICAL)
     try:
         with warnings.catch_warnings():
             warnings.simplefilter("ignore")
-            b = BADS(target, x0, lb, ub, lb / 2, ub / 2, non_box_cons=CONS[cfg["cons"]], options=opts)
+            b = BADS(target, x0, lb, ub, plb, pub, non_box_cons=CONS[cfg["cons"]], options=opts)
+            rec.hard_lb = np.array(b.lower_bounds, dtype=float).reshape(-1).copy()
+            rec.hard_ub = np.array(b.upper_bounds, dtype=float).reshape(-1).copy()
             b.optimize()
     except Exception as ex:   # crashes are C09's concern; recorded, the partial trace is still checked
         out["crash"] = type(ex).__name__
@@ -396,6 +422,20 @@ def panel(tier_quick, seed):
         dict(D=2, budget=60, cons="lattice", n_search=64, iters=2),
         dict(D=2, budget=60, cons="none", n_search=64, iters=2, opt=2.6),    # optimum outside the box: candidates pile up on the bound
         dict(D=3, budget=90, cons="disc"),                       # default 2**12 candidates: monitor only
+        # small populations in a thin band: generations WITHOUT survivors after generations with survivors
+        # (last generation empty for iters=2; an empty generation followed by further ones for iters 3, 4)
+        dict(D=2, budget=60, cons="band", n_search=32, iters=2),
+        dict(D=2, budget=60, cons="band", n_search=48, iters=3),
+        dict(D=2, budget=60, cons="band", n_search=32, iters=4),
+        dict(D=2, budget=60, cons="lattice", n_search=48, iters=3),
+        # hard bounds that are not multiples of the search mesh, optimum beyond a bound: candidates are clamped to the
+        # mesh-rounded box, which differs from the hard box
+        dict(D=2, budget=70, cons="none", n_search=64, iters=3, box="odd", opt=16.0, x0=4.0),
+        dict(D=1, budget=50, cons="none", n_search=64, iters=4, box="odd", opt=-15.0, x0=-4.0),
+        dict(D=2, budget=70, cons="none", n_search=96, iters=2, box="odd", opt=16.0, x0=12.0, widen=True),
+        # acquisition values replaced by NaN for a random subset of the candidates (from outside): np.argsort ranks NaN last
+        dict(D=2, budget=50, cons="none", n_search=32, iters=3, nan_acq=True),
+        dict(D=2, budget=50, cons="wband", n_search=48, iters=2, nan_acq=True),
     ]
     if not tier_quick:
         base += [
@@ -405,10 +445,39 @@ def panel(tier_quick, seed):
             dict(D=2, budget=100, cons="disc", n_search=8, iters=2, noise=True, widen=True),
             dict(D=2, budget=100, cons="lattice", n_search=256, iters=3),
             dict(D=3, budget=150, cons="none", n_search=128, iters=5),
+            dict(D=3, budget=120, cons="none", n_search=128, iters=3, box="odd", opt=-15.0, x0=-4.0),
+            dict(D=2, budget=120, cons="band", n_search=24, iters=3),
+            dict(D=1, budget=60, cons="band", n_search=16, iters=2),
         ]
     for k, c in enumerate(base):
         c["seed"] = 1000 * seed + k + 1
     return base
+
+
+def extra_band_cfg(seed, j):
+    """Further thin-band runs, used by the plug-in until enough later-empty generations have been seen."""
+    ns, it = [(32, 4), (48, 3), (24, 3), (32, 2), (64, 4), (16, 2)][j % 6]
+    return dict(D=2, budget=60, cons="band", n_search=ns, iters=it, seed=1000 * seed + 500 + j)
+
+
+def later_empty_generation(c):
+    """True when a generation without survivors follows a generation with survivors."""
+    seen = False
+    for g in c["gens"]:
+        if g[1].shape[0] > 0:
+            seen = True
+        elif seen:
+            return True
+    return False
+
+
+def mesh_rounded_box(hard_lb, hard_ub, mesh):
+    """The mesh-rounded box recomputed from the hard bounds and the search mesh size alone (exact arithmetic):
+    the smallest multiple of the mesh >= lb and the largest multiple <= ub, per coordinate."""
+    m = Fraction(mesh)
+    lo = [float(m * math.ceil(Fraction(float(v)) / m)) for v in hard_lb]
+    hi = [float(m * math.floor(Fraction(float(v)) / m)) for v in hard_ub]
+    return np.array(lo), np.array(hi)
 
 
 def rows_in(rows, pool):
@@ -416,60 +485,101 @@ def rows_in(rows, pool):
     return all(tuple(r) in s for r in np.asarray(rows).tolist())
 
 
+def es_nan_monitor(c):
+    """Candidates with NaN coordinates among the survivors of a generation (they are not inside any box)."""
+    for k, (U, rows, z) in enumerate(c["gens"]):
+        if rows.shape[0] and np.isnan(rows).any():
+            n = int(np.isnan(rows).any(axis=1).sum())
+            return (f"generation {k + 1} of {len(c['gens'])}: {n} of {rows.shape[0]} surviving candidates have NaN coordinates "
+                    f"(generation sizes {[g[1].shape[0] for g in c['gens']]}); they are not inside the mesh-rounded box")
+    return None
+
+
 def es_monitor(c):
-    """C18 restated on one recorded ESSearch.__call__: returns (kind, message|None)."""
+    """C18 restated on one recorded ESSearch.__call__: returns (kind, message|None, key|None).
+    Survivors = the rows contraints_check returned inside the strategy, over ALL generations; their acquisition
+    values = what acq_fcn_lcb returned on them.  NaN-valued survivors are ranked after every number (they can
+    only be returned when no survivor has a number); NaN coordinates are reported by es_nan_monitor."""
     gens = c["gens"]
     if c.get("desync") or any(g[2] is None for g in gens) and c["exc"] is None:
-        return "unobserved", "acq_fcn_lcb was not called on the filtered population"
+        return "unobserved", "acq_fcn_lcb was not called on the filtered population", "es-unobserved"
     done = [g for g in gens if g[2] is not None]
-    if any(np.isnan(g[2]).any() for g in done):
-        return "nan", None
+    if any(g[2].shape[0] != g[1].shape[0] for g in done):
+        return "unobserved", "acq_fcn_lcb did not return one value per surviving candidate", "es-unobserved"
     lb, ub = c["lb"], c["ub"]
+    box_lo = box_hi = None
+    if c.get("hard_lb") is not None and c.get("search_mesh"):
+        box_lo, box_hi = mesh_rounded_box(c["hard_lb"], c["hard_ub"], c["search_mesh"])
     for U, rows, z in done:
-        if rows.shape[0] and (np.any(rows < c["lb_search"]) or np.any(rows > c["ub_search"])):
-            return "bad", "a surviving candidate lies outside the mesh-rounded box [lb_search, ub_search]"
-        if rows.shape[0] and not rows_in(rows, np.maximum(np.minimum(U, ub), lb)):
-            return "bad", "a surviving candidate is not the projection of a generated candidate"
+        real = rows[~np.isnan(rows).any(axis=1)] if rows.shape[0] else rows
+        if real.shape[0] and not (np.all(real >= c["lb_search"]) and np.all(real <= c["ub_search"])):
+            return "bad", "a surviving candidate lies outside the mesh-rounded box [lb_search, ub_search] of optim_state", "es-not-min"
+        if real.shape[0] and box_lo is not None and not (np.all(real >= box_lo) and np.all(real <= box_hi)):
+            j = int(np.argmax(np.any((real < box_lo) | (real > box_hi), axis=1)))
+            return "bad", (f"surviving candidate {real[j].tolist()} lies outside the mesh-rounded box {box_lo.tolist()} .. {box_hi.tolist()} "
+                           f"recomputed from the hard bounds {c['hard_lb'].tolist()} .. {c['hard_ub'].tolist()} and the search mesh {c['search_mesh']}"), "es-not-min"
+        if real.shape[0] and not rows_in(real, np.maximum(np.minimum(U, ub), lb)):
+            return "bad", "a surviving candidate is not the projection of a generated candidate", "es-not-min"
     allz = np.concatenate([g[2] for g in done]) if done else np.zeros(0)
     allr = np.vstack([g[1] for g in done]) if done else np.zeros((0, 1))
+    sizes = [g[1].shape[0] for g in gens]
     if c["exc"] is not None:
-        if c["exc"] == "IndexError" and any(g[1].shape[0] == 0 for g in gens):
-            return "stuck", None          # pre-692d1d7 behaviour on an empty generation: a crash (C09), not a wrong proposal
-        return "bad", f"ESSearch.__call__ raised {c['exc']} although every generation had survivors"
+        if c["exc"] == "IndexError" and allz.size == 0:
+            return "stuck", None, None    # pre-692d1d7 behaviour when nothing survives: a crash (C09), not a wrong proposal
+        if allz.size:
+            return "bad", f"ESSearch.__call__ raised {c['exc']}: no point was proposed although {allz.size} candidates survived (generation sizes {sizes})", "es-survivors-dropped"
+        return "bad", f"ESSearch.__call__ raised {c['exc']}", "es-not-min"
     if len(gens) != c["iters"]:
-        return "bad", f"{len(gens)} generations recorded, n_search_iter = {c['iters']}"
+        return "bad", f"{len(gens)} generations recorded, n_search_iter = {c['iters']}", "es-not-min"
     if isinstance(c["ret"], str):         # the empty search set
-        if all(g[1].shape[0] > 0 for g in gens):
-            return "bad", "no point was proposed although every generation had survivors"
-        return ("empty" if allz.size == 0 else "dropped"), None
+        if allz.size:
+            first = next(k for k, n in enumerate(sizes) if n > 0)
+            return "bad", (f"the empty search set was returned although {allz.size} candidates survived the filters "
+                           f"(generation sizes {sizes}; generation {first + 1} had {sizes[first]} survivors, best acquisition value "
+                           f"{np.nanmin(allz) if not np.isnan(allz).all() else float('nan')})"), "es-survivors-dropped"
+        return "empty", None, None
     u0, z0 = c["ret"]
     if allz.size == 0:
-        return "bad", "a point was returned although no candidate survived"
-    if z0 != allz.min():
-        return "bad", f"returned acquisition value {z0} is not the minimum {allz.min()} over the {allz.size} survivors"
+        return "bad", "a point was returned although no candidate survived", "es-not-min"
+    if np.isnan(allz).all():
+        ok = np.isnan(z0) and any(np.array_equal(allr[i], u0, equal_nan=True) for i in range(allz.size))
+        return ("ok", None, None) if ok else ("bad", "every survivor has a NaN acquisition value and the returned pair is not one of them", "es-not-min")
+    zmin = np.nanmin(allz)
+    if not z0 == zmin:
+        return "bad", f"returned acquisition value {z0} is not the minimum {zmin} over the {allz.size} survivors of all generations (sizes {sizes})", "es-not-min"
     hit = [i for i in range(allz.size) if allz[i] == z0 and np.array_equal(allr[i], u0)]
     if not hit:
-        return "bad", "returned point is not a survivor carrying the minimal acquisition value"
-    return "ok", None
+        return "bad", "returned point is not a survivor carrying the minimal acquisition value", "es-not-min"
+    return "ok", None, None
+
+
+def _czv(x):
+    x = float(x)
+    return "None" if math.isnan(x) else f"(Some {cq(x)})"
 
 
 def es_case(c):
-    """Coq literal ((lamb, gens), expected) or None when too large / not comparable."""
+    """Coq literal ((lamb, gens), expected) or None when too large / not comparable.  Numbers are `Some q`, NaN is `None`
+    (coordinates and acquisition values); an infinite value has no literal: not comparable."""
     done = c["gens"]
-    if any(g[2] is None for g in done) or any(np.isnan(g[2]).any() for g in done if g[2] is not None):
+    if any(g[2] is None or g[2].shape[0] != g[1].shape[0] for g in done):
+        return None
+    if any(np.isinf(g[2]).any() or np.isinf(g[1]).any() for g in done):
         return None
     if sum(g[1].shape[0] for g in done) > 700:
         return None
     if c["exc"] not in (None, "IndexError"):
         return None
-    gl = clist([clist([f"({cqlist(r)}, {cq(float(zz))})" for r, zz in zip(g[1].tolist(), g[2].tolist())]) for g in done])
+    gl = clist([clist([f"({clist([_czv(v) for v in r])}, {_czv(zz)})" for r, zz in zip(g[1].tolist(), g[2].tolist())]) for g in done])
     if c["exc"] is not None:
         exp = "ESStuck"
     elif isinstance(c["ret"], str):
         exp = "ESEmpty"
     else:
         u0, z0 = c["ret"]
-        exp = f"(ESPoint {cqlist(u0.tolist())} {cq(z0)})"
+        if np.isinf(u0).any() or math.isinf(z0):
+            return None
+        exp = f"(ESPoint {clist([_czv(v) for v in u0.tolist()])} {_czv(z0)})"
     return f"(({cnat(c['lamb'])}, {gl}), {exp})"
 
 
@@ -509,7 +619,7 @@ def step_case(s):
             f"{clist([cqlist(e.tolist()) for e in s['evals']])})")
 
 
-ES_TY = "(nat * list (list (list Q * Q))) * es_out (list Q)"
+ES_TY = "(nat * list (list (list zv * zv))) * es_out (list zv)"
 ES_OK = "es_case_ok"
 STEP_TY = "(list (list Q) * list Q) * list (list Q)"
 STEP_OK = "search_case_ok"
